@@ -221,7 +221,18 @@ func (w *ChunkWriter) WriteChunk(kv *KV) error {
 
 	// Create a new IO pipe and send the reader to the UnchunkReader
 	pr, pw := w.pipe()
-	w.readers <- pr
+	if cap(w.readers) > 0 {
+		// A buffered pipe is used so that the writer never has to wait for
+		// the reader; waiting on a full buffer would block forever when the
+		// reader only starts after all chunks are written.
+		select {
+		case w.readers <- pr:
+		default:
+			return fmt.Errorf("more than %d service info buffered without being read", cap(w.readers))
+		}
+	} else {
+		w.readers <- pr
+	}
 	w.w = pw
 	w.prevKey = kv.Key
 
